@@ -117,6 +117,10 @@ pub struct Case {
     /// which pre-0.14 version string the legacy image carries (index into LEGACY_VERSIONS)
     #[serde(default)]
     pub legacy_version: u8,
+    /// legacy image only: actors 0 and 1 each also have this many further spenders (addresses outside the
+    /// actor pool that never act), so that the allowance table is larger than any page or batch size
+    #[serde(default)]
+    pub legacy_bulk: u8,
     pub ops: Vec<Op>,
 }
 
@@ -267,7 +271,8 @@ pub fn case_strategy(prop: &str, tier: Tier) -> BoxedStrategy<Case> {
         // call, no spender's draw and no Mint, so balances, supply, allowances, minter and cap come through unchanged
         proptest::option::weighted(0.12, legacy_strategy()).boxed()
     };
-    (init_strategy(prop), legacy, 0u8..LEGACY_VERSIONS.len() as u8, ops).prop_map(|(init, legacy, legacy_version, ops)| Case { init, legacy, legacy_version, ops }).boxed()
+    let bulk = if prop == "C19" { prop_oneof![4 => Just(0u8), 1 => 16u8..24].boxed() } else { Just(0u8).boxed() };
+    (init_strategy(prop), legacy, 0u8..LEGACY_VERSIONS.len() as u8, bulk, ops).prop_map(|(init, legacy, legacy_version, legacy_bulk, ops)| Case { init, legacy, legacy_version, legacy_bulk, ops }).boxed()
 }
 
 // ---------------------------------------------------------------- frozen legacy (0.13) layout
@@ -315,6 +320,8 @@ struct World {
     d: Direct,
     actors: Vec<Addr>,
     rcpts: Vec<String>,
+    /// spenders outside the actor pool that only exist in a bulk legacy image (C19)
+    ghosts: Vec<Addr>,
 }
 
 fn v(prop: &str, sig: &str, msg: String) -> Violation {
@@ -331,7 +338,7 @@ impl World {
         let mut rcpts: Vec<String> = actors.iter().map(|a| a.to_string()).collect();
         rcpts.push("x".to_string());
         rcpts.push(actors[0].to_string().to_uppercase());
-        World { d, actors, rcpts }
+        World { d, actors, rcpts, ghosts: vec![] }
     }
 
     fn q<T: serde::de::DeserializeOwned>(&self, msg: QueryMsg) -> Result<T, String> {
@@ -594,6 +601,16 @@ pub fn run_case(prop: &str, case: &Case, ctx: &mut CaseCtx) -> Result<(), Violat
         for ((o, s), a) in last {
             granted.insert((o, s), Uint256::from(a));
             migrated_pairs.insert((o, s));
+        }
+        if prop == "C19" && case.legacy_bulk > 0 {
+            w.ghosts = (0..case.legacy_bulk).map(|i| w.d.api.addr_make(&format!("ghost{i}"))).collect();
+            let store = &mut w.d.store;
+            for o in 0..2usize {
+                for (i, g) in w.ghosts.iter().enumerate() {
+                    L_ALLOWANCES.save(store, (&w.actors[o], g), &LegacyAllowanceValue { allowance: Uint128::new(1 + i as u128 + 100 * o as u128), expires: Expiration::Never {} }).unwrap();
+                }
+            }
+            ctx.flag("legacy_bulk");
         }
         let r = w.d.tx(|deps, env| cw20_base::contract::migrate(deps, env, MigrateMsg {}));
         if let Err(e) = r {
@@ -873,7 +890,23 @@ fn check_state(prop: &str, w: &World, o: &Obs, inst_cap: Option<u128>, at: &str)
                 by_owner.push(w.owner_allowances(a.as_str()).map_err(|e| v(prop, "listing-failed", format!("{at}: {e}")))?);
                 by_spender.push(w.spender_allowances(a.as_str()).map_err(|e| v(prop, "listing-failed", format!("{at}: {e}")))?);
             }
-            let known: BTreeSet<&str> = w.actors.iter().map(|a| a.as_str()).collect();
+            // the spenders of a bulk legacy image: the same three-view comparison, point query made on the spot
+            for g in &w.ghosts {
+                let listed = w.spender_allowances(g.as_str()).map_err(|e| v(prop, "listing-failed", format!("{at}: {e}")))?;
+                for (i, a) in w.actors.iter().enumerate() {
+                    let point = w.allowance(a.as_str(), g.as_str()).map_err(|e| v(prop, "query-failed", e))?;
+                    let (e1, e2) = (by_owner[i].get(g.as_str()), listed.get(a.as_str()));
+                    let agree = match (e1, e2) {
+                        (Some(x), Some(y)) => x == y && *x == point,
+                        (None, None) => point.0 == 0,
+                        _ => false,
+                    };
+                    if !agree {
+                        return Err(v(prop, "views-disagree", format!("{at}: owner actor{i} spender {g} (bulk legacy image): owner listing {:?}, spender listing {:?}, point query {:?}", e1, e2, point)));
+                    }
+                }
+            }
+            let known: BTreeSet<&str> = w.actors.iter().chain(w.ghosts.iter()).map(|a| a.as_str()).collect();
             for (i, m) in by_owner.iter().enumerate() {
                 for k in m.keys() {
                     if !known.contains(k.as_str()) {
@@ -1408,5 +1441,6 @@ pub fn decode_case(prop: &str, u: &mut arbitrary::Unstructured) -> Case {
         ops.push(op);
     }
     let marketing = if arb_bool(u, 3, 5) { Some(d_actor(u)) } else { None };
-    Case { init: Init { accounts, mint, marketing }, legacy, legacy_version, ops }
+    let legacy_bulk = if prop == "C19" && arb_bool(u, 1, 5) { 16 + arb_below(u, 8) as u8 } else { 0 };
+    Case { init: Init { accounts, mint, marketing }, legacy, legacy_version, legacy_bulk, ops }
 }
